@@ -104,8 +104,8 @@ class Exec(object):
         elif op == "adv":
             w.advance(s[1])
         elif op == "restart":
-            if self.tracker is not None:
-                self.tracker.check_sweep_counts(w)
+            if self.tracker is not None and self.timer:
+                self.tracker.check_sweep_counts(w)      # (without the service's timer the harness decides when sweeps run)
             w.stop()
             if len(s) > 1 and isinstance(s[1], dict):
                 # the operator restarts the service with other options on the same files
